@@ -4,7 +4,7 @@ import itertools
 from hypothesis import strategies as st
 
 from .. import db_sqlite, gen_typed, lib, printer, sqllex
-from ..runner import digest, hyp_run
+from ..runner import digest, hyp_run, known_ids
 from ..terms import children, from_json, rebuild, to_json, walk
 
 PROPERTY_ID = "C07"
@@ -128,8 +128,13 @@ def check_case(case):
     adv_t = instantiate(t, adv_s, adv_f)
     real_t = instantiate(t, adv_s, {})      # real column names, adversarial strings (for sqlite3)
     realb_t = instantiate(t, ben_s, {})
+    fences = known_ids(PROPERTY_ID) if case.get("_fenced", True) else set()
     for dname, cls in dialects():
         if case.get("dialect") and case["dialect"] != dname:
+            continue
+        if "S8" in fences and dname == "standard" and any(x[0] == "call" and x[1] in ("floor", "ceiling") for x in walk(t)):
+            # the standard dialect's floor/ceiling template repeats its argument text (known finding S8)
+            case["_excluded"] = case.get("_excluded", 0) + 1
             continue
         for alias in (None, "t"):
             rb = translate(cls, alias, ben_t)
@@ -187,7 +192,7 @@ def check_case(case):
 
 
 def replay(case):
-    return check_case(dict(case))
+    return check_case(dict(case, _fenced=False))
 
 
 def signature(case):
@@ -289,6 +294,7 @@ def run_task(task, seed, acc):
         t = from_json(case["term"])
         r = check_case(case)
         prepared = case.pop("_sqlite_prepared", 0)
+        acc.cls("dialects_excluded_by_known_finding", case.pop("_excluded", 0))
         acc.cls("hostile_field_spelling_rejected_by_lexer", case.pop("_hostile_rejected", 0))
         nt = nontrivial(t, case["strings"])
         acc.case(key=digest([case["term"], case["strings"], case.get("fields")]), nontrivial=nt, n=6,
